@@ -88,7 +88,9 @@ func TestCheck(t *testing.T) {
 		"directly preceded or followed by one more message of other traffic.  Seven receive paths: udp, udp-btd (plain-DNS UDP " +
 		"received through a real bindtodevice.Manager interface listener on lo and its pooled packet bodies), tcp, dot, doq, " +
 		"doh-post, doh-get.  The probe list also holds complete EDNS queries longer than the base query and than the other " +
-		"traffic (padding 0..380 bytes; reflected OPT contents are part of the reference), so that a receive buffer shrunk by " +
+		"traffic (padding up to totals of 512, 513, 700, 1500 and 4000 bytes, i.e. beyond the initial 512-byte size of the pooled " +
+		"UDP and TCP/DoT read buffers; on the UDP paths the own bytes of a datagram end at the documented 512-byte read size; " +
+		"reflected OPT contents are part of the reference), so that a receive buffer shrunk by " +
 		"an earlier, shorter message shows (bucket longer_after_shorter_answered).  Fault history: on a server with a TCP " +
 		"pipeline limit of 1 and a 150 ms request context, 12 TCP clients occupy their slot with a blocked handler and send one " +
 		"more short message that is dropped when its context expires while waiting for a slot; before and after that, bursts of " +
@@ -103,6 +105,7 @@ func TestCheck(t *testing.T) {
 	r.Assume("an observation 'no answer' is never a verdict by itself: a promised answer that is missing is re-requested (3 attempts, long waits) and answered-late cases are counted as ambiguous")
 	r.Assume("sync.Pool is per-P and drops a quarter of the Puts under -race: whether a probe lands in a dirty buffer is not observable from outside; the own-bytes oracle does not depend on it")
 	r.Assume("the bind-to-device UDP path (udp-btd) needs SO_BINDTODEVICE on 'lo' (CAP_NET_RAW); where the interface listener cannot be started the path is reported INCONCLUSIVE, never silently skipped")
+	r.Assume("a UDP datagram longer than the documented read buffer (ConfigDNS.UDPSize, default 512) is judged as its first 512 bytes: the rest never reaches any listener, fresh or warmed")
 	r.Assume("DNSCrypt is not covered: its receive buffers belong to the dnscrypt library, the repository code has no pooled read buffer on that path")
 
 	defProcs := runtime.GOMAXPROCS(0)
@@ -234,6 +237,10 @@ func TestCheck(t *testing.T) {
 	r.Require("judged_family:longer-edns", int64(500*nShapes))
 	for _, p := range allPaths {
 		r.Require("longer_after_shorter_answered:"+p.name, int64(100*nShapes))
+	}
+	for _, p := range []string{"tcp", "dot", "doq", "doh-post", "doh-get"} {
+		// 4 probes longer than 512 bytes x R x 3 histories per shape.
+		r.Require("longer_than_initial_buffer_after_shorter_answered:"+p, int64(6*reps*nShapes))
 	}
 	r.Require("fault:tcp_message_dropped_waiting_for_pipeline_slot", int64(12*nShapes))
 	r.Require("fault:udp_judged:before", int64(80*nShapes))
@@ -418,6 +425,10 @@ func (e *env) runHistory(pr *pathRun, h history, reps int, rng *rand.Rand) {
 				n := len(px.frames[0].sent)
 				if px.frames[0].exp.kind == expRef && n > minAnswered {
 					e.r.Bucket("longer_after_shorter_answered:"+p.name, 1)
+					if n > initialBufSize {
+						// The pooled buffer has to grow again for this one.
+						e.r.Bucket("longer_than_initial_buffer_after_shorter_answered:"+p.name, 1)
+					}
 				}
 
 				if len(o.answers) > 0 {
@@ -706,6 +717,13 @@ func (e *env) differential(
 	wit["outcome_fresh"] = fr.class
 	wit["observed_fresh"] = fr.detail
 	key := p.name + ":warmed-differs-from-fresh"
+	if class == "no-dns-answer" && strings.HasPrefix(fr.class, "answered[") && px.mustCount() == len(px.frames) && len(px.frames) > 0 {
+		// A complete message that the documentation promises an answer to,
+		// and that a fresh listener does answer, is dropped (after repeated
+		// attempts) by the listener that has served other traffic.
+		key = p.name + ":answerable-message-dropped-by-warmed-listener"
+	}
+
 	for _, f := range px.frames {
 		if f.exp.extSensitive {
 			// The meaning of these bytes changes when other bytes follow
